@@ -3,6 +3,7 @@ package main
 import (
 	"fmt"
 	"strings"
+	"testing/fstest"
 
 	g "github.com/philhassey/goatlang"
 )
@@ -230,5 +231,108 @@ func cmdC12Script(seed uint64, n int, dir string) {
 		st.add(fmt.Sprintf("fields=%d methods=%d", nfields, nmeth), fmt.Sprintf("struct program: %d fields, %d methods, %d lines", nfields, nmeth, strings.Count(src, "\n")))
 		diffProgram(st, "struct-program", src)
 	}
+	c12MethodGrowth(st, r)
 	st.write(dir + "/C12_script_stats.json")
+}
+
+// c12MethodGrowth: methods attached AFTER instances exist (statement by statement through Eval, and by reloading a
+// package with more methods on the same VM) are found on every instance made before, across every growth
+// threshold of the method table (13, 25, 49, 97, 193 entries), and on instances made afterwards.  Expected values
+// are computed here.
+func c12MethodGrowth(st *stats, r *rng) {
+	report := func(mode, what, exp, got, hist string) {
+		st.mismatchG("c12|method-growth", map[string]any{"kind": "c12|method-growth", "mode": mode, "what": what, "expected": exp, "got": got, "history": hist})
+	}
+	for _, total := range []int{3, 12, 13, 14, 24, 25, 26, 48, 50, 97, 100, 200} {
+		// (a) successive Evals on one VM
+		vm := g.New()
+		ev := func(src string) (string, error) {
+			rets, err := vm.Eval(fstest.MapFS{}, "in", src)
+			if err != nil {
+				return "", err
+			}
+			var p []string
+			for _, v := range rets {
+				p = append(p, v.String())
+			}
+			return strings.Join(p, ","), nil
+		}
+		hist := "type T struct { k int }; old := &T{k: 7}"
+		if _, err := ev("type T struct { k int }\nold := &T{k: 7}"); err != nil {
+			report("eval", "setup", "no error", err.Error(), hist)
+			continue
+		}
+		step := 1 + r.intn(4)
+		for m := 0; m < total; {
+			var sb strings.Builder
+			for k := 0; k < step && m < total; k, m = k+1, m+1 {
+				fmt.Fprintf(&sb, "func (t *T) m%d(a int) int { return t.k*1000 + a + %d }\n", m, m)
+			}
+			hist += fmt.Sprintf("; methods up to m%d", m-1)
+			if _, err := ev(sb.String()); err != nil {
+				report("eval", "declaring methods", "no error", err.Error(), hist)
+				break
+			}
+			// every method declared so far, on the old instance and on a fresh one
+			for _, q := range []int{0, m / 2, m - 1} {
+				want := fmt.Sprint(7*1000 + 5 + q)
+				got, err := ev(fmt.Sprintf("r := old.m%d(5); r", q))
+				if err != nil {
+					got = err.Error()
+				}
+				st.add("method growth", fmt.Sprintf("eval total=%d", total))
+				if got != want {
+					report("eval", fmt.Sprintf("old.m%d(5) after %d methods were declared (instance made before them)", q, m), want, got, hist)
+				}
+				want2 := fmt.Sprint(9*1000 + 5 + q)
+				got2, err := ev(fmt.Sprintf("fresh := &T{k: 9}; r2 := fresh.m%d(5); r2", q))
+				if err != nil {
+					got2 = err.Error()
+				}
+				if got2 != want2 {
+					report("eval", fmt.Sprintf("(&T{k: 9}).m%d(5) after %d methods were declared", q, m), want2, got2, hist)
+				}
+			}
+		}
+		// (b) reload with more methods while an old instance is alive in a global
+		vm2 := g.New()
+		src := func(n int) string {
+			var sb strings.Builder
+			sb.WriteString("package p\n\ntype T struct {\n\tk int\n}\n\nvar G *T\n\nfunc Make() int {\n\tG = &T{k: 7}\n\treturn 1\n}\n\n")
+			for m := 0; m < n; m++ {
+				fmt.Fprintf(&sb, "func (t *T) m%d(a int) int {\n\treturn t.k*1000 + a + %d\n}\n\n", m, m)
+			}
+			fmt.Fprintf(&sb, "func CallLast(a int) int {\n\treturn G.m%d(a)\n}\n\nfunc CallFirst(a int) int {\n\treturn G.m0(a)\n}\n", n-1)
+			return sb.String()
+		}
+		first := 1 + r.intn(3)
+		fs := fstest.MapFS{"p/a.go": &fstest.MapFile{Data: []byte(src(first))}}
+		h2 := fmt.Sprintf("Load(%d methods); Make(); Load(%d methods)", first, total)
+		if err := vm2.Load(fs, "p"); err != nil {
+			report("reload", "first load", "no error", err.Error(), h2)
+			continue
+		}
+		vm2.Call("p.Make", 1)
+		fs["p/a.go"].Data = []byte(src(total))
+		if err := vm2.Load(fs, "p"); err != nil {
+			report("reload", "second load", "no error", err.Error(), h2)
+			continue
+		}
+		for _, c := range []struct {
+			fn   string
+			want int
+		}{{"p.CallLast", 7*1000 + 5 + total - 1}, {"p.CallFirst", 7*1000 + 5}} {
+			rets, err := vm2.Call(c.fn, 1, g.Int(5))
+			got := ""
+			if err != nil {
+				got = err.Error()
+			} else {
+				got = rets[0].String()
+			}
+			st.add("method growth", fmt.Sprintf("reload total=%d", total))
+			if got != fmt.Sprint(c.want) {
+				report("reload", c.fn+"(5) on the instance made before the reload", fmt.Sprint(c.want), got, h2)
+			}
+		}
+	}
 }
